@@ -4,16 +4,17 @@
 # demo passes without the patch. Then stores the mutant under /verif/seeded/<PROP>-<n>/.
 PROP=$1; N=$2; CRATE=$3; DEMO=${4:-demo_test.rs}
 WT=/tmp/mut-$PROP; OUT=/tmp/mut-$PROP-out/$N
-NAME=$(echo "${PROP}_demo_${N}" | tr 'A-Z' 'a-z')
+NAME=$(grep -o "tests/[A-Za-z0-9_]*\.rs" $OUT/$DEMO | head -1 | sed 's|tests/||; s|\.rs||')
+[ -z "$NAME" ] && NAME=$(echo "${PROP}_demo_${N}" | tr 'A-Z' 'a-z')
 cd $WT || exit 2
 git checkout -q -- . ; git clean -fdq -e target
 git apply $OUT/patch.diff || { echo "APPLY FAILED"; exit 2; }
-cp $OUT/$DEMO $WT/$CRATE/tests/$NAME.rs
-cargo test --offline -p $CRATE --test $NAME > /tmp/confirm_${PROP}_${N}_with.log 2>&1; WITH=$?
+mkdir -p $WT/$CRATE/tests; cp $OUT/$DEMO $WT/$CRATE/tests/$NAME.rs
+cargo test --offline -p $CRATE $FEATURES --test $NAME > /tmp/confirm_${PROP}_${N}_with.log 2>&1; WITH=$?
 SUITE=$(cargo nextest run --workspace --no-fail-fast --offline --test-threads 8 2>&1 | grep "Summary" | tail -1)
 # the demo itself is an extra test in the suite: subtract it
 git apply -R $OUT/patch.diff
-cargo test --offline -p $CRATE --test $NAME > /tmp/confirm_${PROP}_${N}_without.log 2>&1; WITHOUT=$?
+cargo test --offline -p $CRATE $FEATURES --test $NAME > /tmp/confirm_${PROP}_${N}_without.log 2>&1; WITHOUT=$?
 rm -f $WT/$CRATE/tests/$NAME.rs
 git checkout -q -- . ; git clean -fdq -e target
 echo "$PROP/$N: demo with patch exit=$WITH (want !=0), without exit=$WITHOUT (want 0); suite with patch (+demo tests): $SUITE"
